@@ -896,8 +896,10 @@ Definition handle_replay (s0 : kstate) (hd : hdr) (cp : cproof) : res (kstate * 
                                (h' =? h) && existsb (fun p => bytes_eqb (hd_hash (ph_hdr p)) (hd_hash hd)) (re_phs e))
                      (st_rounds s)
      then
-       (* the round store already holds the header as a proposed header of this height: nothing is written *)
-       Ok (set_vot s (with_phs (k_vot s) (v_phs (k_vot s) ++ [fake_ph hd r])))
+       (* the round store already holds the header as a proposed header of another round of this height and
+          refuses it as a replayed header: it is filed as a (keyless) proposed header of the replayed round *)
+       let s1 := log_w (set_rounds s (rs_save_ph (st_rounds s) (fake_ph hd r))) (WPH (fake_ph hd r)) in
+       Ok (set_vot s1 (with_phs (k_vot s1) (v_phs (k_vot s1) ++ [fake_ph hd r])))
      else
        let s1 := log_w (set_replayed s (st_replayed s ++ [hd])) (WReplay hd) in
        Ok (set_vot s1 (with_phs (k_vot s1) (v_phs (k_vot s1) ++ [fake_ph hd r])))) (fun s1 =>
